@@ -190,6 +190,7 @@ func runC03(c *Cfg) {
 	mcs = append(mcs, startlessBranchCases()...)
 	mcs = append(mcs, selfEmbeddedCases()...)
 	mcs = append(mcs, lateInnerEdgeCases()...)
+	mcs = append(mcs, sharedNodeCases()...) // one node object in several flows: each flow's table is its own
 	mcs = append(mcs, longLoopCases()...) // more than a thousand visits: the table alone decides when a run ends
 	parallel(c, len(mcs), func(i int) {
 		judgeFor(c, "C03", "connect-while-running", mcs[i])
@@ -202,7 +203,7 @@ func runC03(c *Cfg) {
 	nr := c.Pick(30000, 2000000)
 	parallel(c, nr, func(i int) {
 		rg := c.Rng("c03rand", i)
-		sc := scen.GenFlowScenario(rg, scen.GenOpts{MaxNodes: 12, MaxActions: 5, MaxDepth: 3, Failures: i%2 == 0, MaxVisits: 4, Batch: true, SelfNesting: true})
+		sc := scen.GenFlowScenario(rg, scen.GenOpts{MaxNodes: 12, MaxActions: 6, MaxDepth: 3, Failures: i%2 == 0, MaxVisits: 4, Batch: true, SelfNesting: true})
 		if sc.Runs > 1 && i%4 == 1 {
 			failSomewhere(rg.IntN(1<<30), sc) // a run that ends in an error, followed by further runs of the same flow object
 			r.Count("random.scenarios_with_failed_run_then_rerun", 1)
@@ -332,6 +333,29 @@ func runC04(c *Cfg) {
 			}
 		}
 	}
+	// the same flow object run several times: the error each run returned keeps matching THAT run's callback error after
+	// later runs (failing elsewhere, or succeeding) of the same object
+	var kept []*scen.Scenario
+	for kind := 0; kind < scen.NumScriptedKinds; kind++ {
+		for depth := 0; depth <= 3; depth++ {
+			for second := 0; second < 3; second++ { // the later run: fails in the other node / succeeds / fails in the same node again
+				a := scen.NodeSpec{Kind: kind, N: 1, ErrKind: errKindCycle[(kind+depth)%len(errKindCycle)], Visits: []scen.Visit{{FirstOK: 1, Post: "go", PostErr: true}, {FirstOK: 1, Post: "go", PostErr: second == 2}, {FirstOK: 1, Post: "go"}}}
+				b := scen.NodeSpec{Kind: scen.KBase, N: 1, ErrKind: scen.ECustom, Visits: []scen.Visit{{PrepErr: second == 0, FirstOK: 1, Post: "fin"}, {FirstOK: 1, Post: "fin"}}}
+				nodes := []scen.NodeSpec{a, b, {Kind: scen.KFlow, N: 1, Flow: &scen.FlowSpec{Start: 0, Conns: []scen.Conn{{From: 0, Action: "go", To: 1}}}}}
+				root := 2
+				for d := 0; d < depth; d++ {
+					nodes = append(nodes, scen.NodeSpec{Kind: scen.KFlow, N: 1, Flow: &scen.FlowSpec{Start: root}})
+					root = len(nodes) - 1
+				}
+				kept = append(kept, &scen.Scenario{Nodes: nodes, Root: root, Runs: 3, UseFlowRun: (kind+depth)%2 == 0})
+			}
+		}
+	}
+	parallel(c, len(kept), func(i int) {
+		judgeFor(c, "C04", "errors-kept-across-runs", kept[i])
+		r.Count("errors_kept_across_runs.cases", 1)
+		r.Nontrivial("ek:" + scenSig(kept[i]))
+	})
 	// the context is cancelled inside the very last callback of a run that succeeds: every phase on the path has
 	// succeeded, nothing was cut short, the run reports success
 	nl := c.Pick(1500, 100000)
